@@ -313,7 +313,7 @@ func runOn(w *hist.World, c *Case) (*caseRes, *violation) {
 		changed := !bytes.Equal(x0.AppHash, x1.AppHash)
 		if ck.Code == 0 || changed {
 			what := fmt.Sprintf("%s executed in block %d (code 0); its resubmission (%s, %s): CheckTx code %d after block %d; delivered in block %d: DeliverTx code %d, ",
-				c.Kind, execHeight, e.Op, er.class, ck.Code, tm.Height-1, tm.Height, x0.Txs[0].Code)
+				res.kind, execHeight, e.Op, er.class, ck.Code, tm.Height-1, tm.Height, x0.Txs[0].Code)
 			oracle := er.class + "-replay-admitted"
 			if changed {
 				oracle = er.class + "-replay-executed"
